@@ -18,8 +18,8 @@ pub const SPEC: PropSpec = PropSpec {
 	level: "exploration",
 	rule: "direction A (crate writes): files from the C05 workload plus random user metadata maps (0..8 keys, binary values) are un-framed by the reference parser: magic, metadata map with avro.schema JSON-equal to Schema::json() and avro.codec = specification name, every user key with exact bytes, 16-byte sync, blocks of (count, size, codec-framed data, same sync); decoded values == written; for deflate/bzip2/xz a sample of files is additionally un-framed by tools/ocf_ref.py (python zlib raw / bz2 / lzma, stream must be terminated with nothing after it; block counts, raw lengths and CRC-32 compared); apache-avro reads a fixed-shape sample. direction B (crate reads): the reference writer produces any block partitioning incl. zero-count blocks, shuffled metadata order, extra keys, metadata map split in several blocks / negative-count blocks, avro.codec absent or \"null\", all six codecs; apache-avro-written files for its codecs; the crate's Reader (slice / BufReader / chunked) must yield exactly the values. distinct by hash(file bytes)",
 	assumptions: &["codec libraries' own streaming front ends and python3's zlib/bz2/lzma are the trusted base for payload (de)compression"],
-	cases: (2_500, 400_000),
-	secs: (75, 900),
+	cases: (50_000_000, 4_000_000_000),
+	secs: (45, 900),
 	required: &["crate_written_layout_ok", "reference_written_read_ok", "user_metadata_checked", "codec_key_absent_read_ok", "python_crosschecks_ok", "apache_reads_crate_ok", "crate_reads_apache_ok"],
 	run_case,
 	once: None,
